@@ -4,6 +4,7 @@ import importlib
 _ENGINES = {
     "C04": ("sims.histsim", "HistSim"),
     "C07": ("sims.modesim", "ModeSim"),
+    "C08": ("sims.optsim", "OptSim"),
 }
 
 
